@@ -535,6 +535,62 @@ fn apply_filter_with_tagged_argument_value<'query, Vertex: Debug + Clone + 'quer
     }
 }
 
+/// Verification-only entry points (feature `__verif`): thin public wrappers around
+/// the filter operator functions of this module. They add no behaviour of their own.
+#[cfg(feature = "__verif")]
+#[doc(hidden)]
+pub mod verif {
+    use crate::ir::FieldValue;
+
+    pub fn equals(left: &FieldValue, right: &FieldValue) -> bool {
+        super::equals(left, right)
+    }
+
+    pub fn greater_than(left: &FieldValue, right: &FieldValue) -> bool {
+        super::greater_than(left, right)
+    }
+
+    pub fn greater_than_or_equal(left: &FieldValue, right: &FieldValue) -> bool {
+        super::greater_than_or_equal(left, right)
+    }
+
+    pub fn less_than(left: &FieldValue, right: &FieldValue) -> bool {
+        super::less_than(left, right)
+    }
+
+    pub fn less_than_or_equal(left: &FieldValue, right: &FieldValue) -> bool {
+        super::less_than_or_equal(left, right)
+    }
+
+    pub fn has_substring(left: &FieldValue, right: &FieldValue) -> bool {
+        super::has_substring(left, right)
+    }
+
+    pub fn has_prefix(left: &FieldValue, right: &FieldValue) -> bool {
+        super::has_prefix(left, right)
+    }
+
+    pub fn has_suffix(left: &FieldValue, right: &FieldValue) -> bool {
+        super::has_suffix(left, right)
+    }
+
+    pub fn one_of(left: &FieldValue, right: &FieldValue) -> bool {
+        super::one_of(left, right)
+    }
+
+    pub fn contains(left: &FieldValue, right: &FieldValue) -> bool {
+        super::contains(left, right)
+    }
+
+    pub fn regex_matches_slow_path(left: &FieldValue, right: &FieldValue) -> bool {
+        super::regex_matches_slow_path(left, right)
+    }
+
+    pub fn regex_matches_optimized(left: &FieldValue, regex: &regex::Regex) -> bool {
+        super::regex_matches_optimized(left, regex)
+    }
+}
+
 #[cfg(test)]
 mod tests {
     use std::sync::Arc;
